@@ -154,7 +154,13 @@ def st_case(draw):
     npos_only = sum(1 for f in pos if f["pk"] == "pos_only")
     for i, f in enumerate(pos):
         f["pk"] = "pos_only" if i < npos_only else "pos_or_kw"
-    fields = pos + [f for f in fields if f["pk"] == "kw_only"]
+    if kind in ("dataclass", "attrs"):
+        # a keyword-only field may be declared anywhere: the order of *fields* then differs from the order of the
+        # constructor's *parameters* (keyword-only parameters come last in the signature)
+        it = iter(pos)
+        fields = [f if f["pk"] == "kw_only" else next(it) for f in fields]
+    else:
+        fields = pos + [f for f in fields if f["pk"] == "kw_only"]
     del order
     present = [draw(st.booleans()) for _ in fields]
     layout = draw(st.sampled_from(["dict", "dict", "dict", "list"]))
